@@ -395,6 +395,7 @@ fn run_window(a: &Args) -> Report {
         let mut dist = Distribution::new_summary(std::sync::Arc::new(qs.clone()), dur, NonZeroU32::new(count).unwrap());
         let mut t_now: u64 = 0; // ns since start
         let mut samples: Vec<(u64, f64)> = Vec::new();
+        let mut pending: Vec<(f64, quanta::Instant)> = Vec::new();
         let steps = 1 + r.usize(30);
         let mut h = mix(count as u64, dur_ns);
         let mut trace: Vec<String> = Vec::new();
@@ -417,16 +418,32 @@ fn run_window(a: &Args) -> Report {
                 let big = r.chance(1, 6);
                 let v = if big { 1e9 + r.below(10) as f64 } else { 1.0 + r.below(100) as f64 };
                 let now = clock.now();
-                let res = rt::catch(|| dist.record_samples(&[(v, now)]));
-                if let Err(m) = res {
-                    rep.violation("C15:panic", jo! {"what" => "summary add panicked", "panic" => m});
-                    break;
-                }
                 samples.push((t_now, v));
-                trace.push(format!("t={} add {}", t_now, v));
+                if r.chance(1, 3) {
+                    // recorded now, handed to the distribution later in one batch with other samples (as a drained block
+                    // is): every sample keeps its own recording time
+                    pending.push((v, now));
+                    trace.push(format!("t={} add {} (stays in the pending block)", t_now, v));
+                } else {
+                    pending.push((v, now));
+                    let batch = std::mem::take(&mut pending);
+                    let res = rt::catch(|| dist.record_samples(&batch));
+                    if let Err(m) = res {
+                        rep.violation("C15:panic", jo! {"what" => "summary add panicked", "panic" => m});
+                        break;
+                    }
+                    trace.push(format!("t={} add {} (block of {} samples handed over)", t_now, v, batch.len()));
+                }
             } else {
-                // snapshot
+                // snapshot (an exporter drains the pending block first)
                 let now = clock.now();
+                if !pending.is_empty() {
+                    let batch = std::mem::take(&mut pending);
+                    if let Err(m) = rt::catch(|| dist.record_samples(&batch)) {
+                        rep.violation("C15:panic", jo! {"what" => "summary add panicked", "panic" => m});
+                        break;
+                    }
+                }
                 if let Distribution::Summary(rs, _, sum) = &dist {
                     let snap = match rt::catch(|| rs.snapshot(now)) {
                         Ok(s) => s,
